@@ -6,6 +6,7 @@
 import TealerModel.Lemmas.Cfg
 import TealerModel.Lemmas.StepEdge
 import TealerModel.Lemmas.Mirror
+import TealerModel.Lemmas.BlockWalk
 namespace Tealer.C04
 
 /-- blocks partition the instructions in source order: concatenating the created blocks in creation order
@@ -196,5 +197,39 @@ example :
     (insNext prog).toOption = some [[1], [2, 3], [], [4], []] := by decide
 
 example : (createBB staleWitness ((insNext staleWitness).toOption.getD [])).1.flatten = List.range 8 := by decide
+
+/-- THE BLOCK SEQUENCE OF ANY CONCRETE EXECUTION IS A WALK IN THE GRAPH — one step.  For the blocks of the third pass and
+    the graph `bs` of passes 3-4 (whose successor lists the retained blocks keep, `C04_mirror_wellformed`): a step of the
+    concrete AVM semantics from instruction `s.pc` either
+    * stays inside the block (lands on the instruction that follows `s.pc` in its block), or
+    * leaves the block at its LAST instruction and lands in a block that is in its successor list, or
+    * runs past the last instruction, or is the call edge of `callsub` (callee label, return address pushed), or the
+      return edge of `retsub` (return address popped). -/
+theorem C04_block_walk (prog : List Ins) (nexts : List (List Nat)) (bs : List RawBlock) (h : insNext prog = .ok nexts)
+    (hg : CfgWF.graphOf prog nexts = .ok bs)
+    (e : Avm.Env) (s s' : Avm.State) (i : Ins) (hi : prog[s.pc]? = some i) (hs : Avm.step prog e s = .next s') :
+    (∃ blk ∈ (createBB prog nexts).1, BlockShape.Adj blk s.pc s'.pc ∧ s'.pc = s.pc + 1)
+    ∨ (∃ B B', blockOfIns (createBB prog nexts).1 s.pc = .ok B ∧ blockOfIns (createBB prog nexts).1 s'.pc = .ok B' ∧
+        ((createBB prog nexts).1[B]!).getLast? = some s.pc ∧ B' ∈ (bs[B]!).next)
+    ∨ (s'.pc = prog.length ∧ s.pc + 1 = prog.length ∧ i.op.noFallthrough = false)
+    ∨ (∃ l, i.op = .callsub l ∧ Avm.labelPos prog l = some s'.pc ∧ s'.calls = s.calls ++ [s.pc + 1])
+    ∨ (i.op = .retsub ∧ s.calls.getLast? = some s'.pc ∧ s'.calls = s.calls.dropLast) := by
+  rcases C04_step_along_edge prog nexts h e s s' i hi hs with h1 | h1 | h1 | h1
+  · rcases BlockWalk.block_walk prog nexts bs h hg s.pc i hi s'.pc h1 with h2 | h2
+    · exact Or.inl h2
+    · exact Or.inr (Or.inl h2)
+  · exact Or.inr (Or.inr (Or.inl h1))
+  · exact Or.inr (Or.inr (Or.inr (Or.inl h1)))
+  · exact Or.inr (Or.inr (Or.inr (Or.inr h1)))
+
+/-- A BLOCK IS ENTERED ONLY AT ITS FIRST INSTRUCTION: inside a block, an instruction has a predecessor in the block only
+    if that predecessor has it as its one successor and does not end a block, and only if it is not a label — so jump
+    targets (labels) are always the first instruction of their block -/
+theorem C04_block_shape (prog : List Ins) (nexts : List (List Nat)) (h : insNext prog = .ok nexts) :
+    ∀ blk ∈ (createBB prog nexts).1, ∀ a b, BlockShape.Adj blk a b →
+      nexts[a]! = [a + 1] ∧ b = a + 1 ∧ ((prog[b]!).op).isLabel = false := by
+  intro blk hb a b hab
+  obtain ⟨h1, h2⟩ := BlockWalk.inner_successor prog nexts h blk hb a b hab
+  exact ⟨h1, h2, (BlockShape.createBB_shape prog nexts (CfgL.insNext_length prog nexts h) blk hb a b hab).2⟩
 
 end Tealer.C04
